@@ -28,6 +28,9 @@ type PCProgram struct {
 	ReadLen []int `json:"readlen"`
 	AckN    []int `json:"ackn"`
 	Yields  []int `json:"yields"`
+	// Skip[i%len] == 1: when event i has been read only partially, the consumer abandons the rest of
+	// it (the following Reader.Next skips to the next event)
+	Skip []int `json:"skip,omitempty"`
 }
 
 func (p *PCProgram) JSON() []byte {
@@ -116,6 +119,7 @@ func RunC13(p *PCProgram) Result {
 		prodDone             = make(chan struct{})
 		acksDuringProduction int
 		acks                 int
+		skips                int
 	)
 	report := func(clause, format string, args ...interface{}) {
 		mu.Lock()
@@ -297,6 +301,14 @@ func RunC13(p *PCProgram) Result {
 					consumed++
 					curEv = -1
 					got++
+				} else if pick(p.Skip, curEv, 0) == 1 {
+					// abandon the rest of the event: the next Reader.Next skips it
+					consumed++
+					curEv = -1
+					got++
+					mu.Lock()
+					skips++
+					mu.Unlock()
 				}
 				yield(j)
 			}
@@ -386,6 +398,7 @@ func RunC13(p *PCProgram) Result {
 	c["pc-run"]++
 	c["acks"] = acks
 	c["acks-during-production"] = acksDuringProduction
+	c["partial-read-then-skip"] = skips
 	payload := int(p.Cfg.PageSize) - 28
 	cross := false
 	for _, s := range p.Sizes {
